@@ -115,12 +115,15 @@ var writerClass = map[string][]string{
 var readerClass = map[string][]string{
 	"reifyBool": {"bool", "string"}, "reifyInt": {"int", "uint", "string"}, "reifyUint": {"int", "uint", "string"}, "reifyFloat": {"float", "int", "uint", "string"}, "invoke toString": {"string", "bool", "int", "uint", "float"},
 	"reifyArray": {"array"}, "reifySliceMerge": {"array"}, "reifySlice": {"array"}, "reifyMap": {"map"}, "reifyStruct": {"struct"}, "reifyInto": {"map", "struct"},
+	"mergeFieldConfig": {"map", "struct"}, // a target of a type defined on Config takes the sub-config as it is
 }
 
 // helper calls that carry no class information
 var neutralHandlers = map[string]bool{
 	"raiseConversion": true, "raiseExpectedObject": true, "raiseKeyInvalidTypeUnpack": true, "pointerize": true, "invoke toConfig": true,
 	"reifyPrimitive": true, "invoke Context": true, "invoke meta": true, "raisePathErr": true, "invoke reflect": true, "raiseToTypeNotSupported": true,
+	"chaseValuePointers": true, "chaseValueInterfaces": true, "chaseValue": true, "chaseTypePointers": true, "invoke ConvertibleTo": true, "path": true, "raisePointerRequired": true,
+	"invoke Kind": true, "invoke Elem": true, "invoke Key": true,
 }
 
 func classesOf(hs map[string]bool, table map[string][]string) (map[string]bool, []string) {
@@ -859,6 +862,51 @@ func specialTypesRule(c *Ctx, r *Report) {
 		}
 		r.Check(ok, "R06b", c.FnName(DP), "extras before "+f.Name(), c.Pos(ci.Pos()), "the kind predicate is consulted only when the extras table has no entry for the type",
 			"a special type can be read by its kind ("+f.Name()+") before the extras table is consulted")
+	}
+	// shortcuts in front of the table: before the special types are looked up, doReifyPrimitive may only succeed when
+	// the stored value has exactly the requested type, or for a string target (the text is the encoding). A wider
+	// shortcut ("same representation", "convertible") hands an int64 to a Duration as nanoseconds.
+	for _, ret := range Returns(DP) {
+		if len(ret.Results) < 2 || !IsNilConst(RetVal(ret, len(ret.Results)-1)) {
+			continue
+		}
+		afterTable, exact := false, false
+		for _, cd := range ExpandConds(DomConds(ret.Block())) {
+			if bo, isB := cd.V.(*ssa.BinOp); isB {
+				if bo.Op == token.NEQ && !cd.Truth || bo.Op == token.EQL && cd.Truth {
+					if lk, isL := bo.X.(*ssa.Lookup); isL {
+						if _, isMap := lk.X.Type().Underlying().(*types.Map); isMap && bo.Op == token.NEQ {
+							afterTable = true
+						}
+					}
+				}
+				if bo.Op == token.NEQ && cd.Truth {
+					if lk, isL := bo.X.(*ssa.Lookup); isL {
+						if _, isMap := lk.X.Type().Underlying().(*types.Map); isMap {
+							afterTable = true // the table's own entry is being used
+						}
+					}
+				}
+				if bo.Op == token.EQL && cd.Truth && typeStr(bo.X.Type()) == "reflect.Type" && typeStr(bo.Y.Type()) == "reflect.Type" {
+					exact = true
+				}
+				if _, k, ok := enumTest(bo, kt); ok && k == 24 && bo.Op == token.EQL && cd.Truth {
+					exact = true // kind == String
+				}
+			}
+		}
+		for _, rc := range rcases {
+			for _, cd := range DomConds(ret.Block()) {
+				if cd.If == rc.ifi {
+					afterTable = true
+				}
+			}
+		}
+		if afterTable {
+			continue
+		}
+		r.Check(exact, "R06b", c.FnName(DP), "shortcut before the special types", c.Pos(ret.Pos()), "a result in front of the table only for the identical type or a string target",
+			"doReifyPrimitive can succeed before the special types are consulted under a test wider than type identity: a number stored as int64 reaches a time.Duration target as nanoseconds, while the same document read through a front-end that decodes numbers as float64 gives seconds")
 	}
 	// encodings
 	for _, w := range wcases {
